@@ -31,6 +31,10 @@ def jobs(tier):
                      replay="C10_float_hash.c" if "float" in h else "C10_int_hash.c"))
     J.append(Job("C10.dispatch.hash_default", "C10", "K2", "Hash/dispatch.c", "h_hash_default", ["hash"],
                  link=DL, replace_calls=["exception_throw:cv_throw", "hash_data:cv_hash_data"], unwind=12, group="C10.dispatch.k2"))
+    for n in ([0, 1, 7, 8, 9, 12, 16, 17, 21, 24] if tier != "thorough" else list(range(0, 34))):
+        J.append(Job("C10.memswap.len%d" % n, "C10", "K3", "Assign/k3_memswap.c", "h_memswap_len", ["memswap"], defines=["LEN=%d" % n],
+                     link=["src/Exception.c", "stubs/throw.c"], replace_calls=["exception_throw:cv_throw"], unwind=n + 3, group="C10.memswap.bounded",
+                     bound="memswap stand-in without loop contract: lengths %s" % ("0..33" if tier == "thorough" else "0,1,7,8,9,12,16,17,21,24"), case="len=%d" % n))
     lens = [0, 1, 2]   # longer buffers need multiplier equivalence, which no installed back end decides (DESIGN.md)
     for n in lens:
         J.append(Job("C10.hash_data.lemma.len%d" % n, "C10", "K3", "Hash/lemma_hash_data.c", "h_hash_data_lemma", ["hash_data"],
